@@ -235,6 +235,41 @@ def _handler(case):
                     viols.append(("two.rate-zero", f"component with rate 0 failed: {tag}"))
             sig.add((f0, f1, du, r1 == 0))
         return dict(ops=ops, impl=impl, viols=viols[:3], nontrivial=("two", case["comp"], tuple(sorted(sig))), tag="two:" + case["comp"])
+    if k == "ictnet":
+        # several communication lines of one real ICTNetwork, updated one at a time with replayed draws; compared with the model of a
+        # network of two-state components with its failed-line flag (C13.network_component_independent / flag_tracks_failures)
+        from relsad.network.components import ICTNode, ICTLine, ManualMainController
+        from relsad.network.systems import PowerSystem, ICTNetwork
+        from . import net as _net
+        _net.reset_counters()
+        ps = PowerSystem(ManualMainController("C", sectioning_time=T(F(1), 3)))
+        nl = case["n"]
+        nodes = [ICTNode(f"N{i}") for i in range(nl + 1)]
+        rng, dist = Rng(), Dist()
+        rate = F(case["rate"])
+        lines = [ICTLine(f"IL{i}", nodes[0], nodes[i + 1], fail_rate_per_year=rate) for i in range(nl)]
+        for l in lines:
+            l.ps_random = rng; l.repair_time_dist = dist
+        inet = ICTNetwork(ps)
+        inet.add_nodes(nodes); inet.add_lines(lines)
+        for (i, dq, du, u, rep) in case["steps"]:
+            dq, u, rep = F(dq), F(u), F(rep)
+            pre = ",".join(f"{fb(bool(l.failed))}:{fr(hours(l.remaining_outage_time))}" for l in lines)
+            f0 = [bool(l.failed) for l in lines]; r0 = [hours(l.remaining_outage_time) for l in lines]
+            rng.q = [u]; rng.n = 0; dist.v = rep; dist.n = 0
+            ops.append(f"fail net {fb(bool(inet.failed_line))} {pre} {i} {fr(rate)} {fr(dq)} {du} {fr(u)} {fr(rep)}")
+            lines[i].update_fail_status(T(dq, du))
+            impl.append(f"{fb(bool(inet.failed_line))} " + ",".join(f"{fb(bool(l.failed))}:{fr(hours(l.remaining_outage_time))}" for l in lines))
+            dth = dq * FACT[du] / 3600
+            if f0[i] and r0[i] - dth <= 0 and lines[i].failed:
+                viols.append(("net.return", f"communication line {i} of {nl}: its outage time ({r0[i]} h, step {dth} h) is used up but it stays failed (other lines failed: {[j for j in range(nl) if f0[j] and j != i]})"))
+            if bool(inet.failed_line) != any(bool(l.failed) for l in lines):
+                viols.append(("net.flag", f"network flag failed_line = {inet.failed_line} with failed lines {[j for j in range(nl) if lines[j].failed]}"))
+            for j in range(nl):
+                if j != i and (bool(lines[j].failed) != f0[j] or hours(lines[j].remaining_outage_time) != r0[j]):
+                    viols.append(("net.other", f"updating line {i} changed line {j}"))
+            sig.add((f0[i], bool(lines[i].failed), sum(f0)))
+        return dict(ops=ops, impl=impl, viols=viols[:3], nontrivial=("ictnet", nl, tuple(sorted(sig))), tag="ictnet")
     if k == "sensor":
         return sensor_case(case)
     if k == "switch":
@@ -502,6 +537,15 @@ def gen(rng, n):
         c = c07.make_case(spec, {str(k1): [[f"F0L{a}", str(rng.choice([F(1), F(2), F(5, 2)]))]], str(k2): [[f"F0L{b}", str(rng.choice([F(1), F(2), F(4, 3)]))]]}, dt, "pair")
         c["kind"] = "section-pair"
         cases.append(c)
+    for q in range(max(6, n // 8)):
+        # a network of 2-4 communication lines with overlapping outages
+        nl = rng.choice([2, 3, 4])
+        rate = rng.choice([F(2000), F(10 ** 6), F(500)])
+        steps = []
+        for _ in range(rng.randint(10, 40)):
+            dt = rand_dt(rng)
+            steps.append([rng.randrange(nl), dt[0], dt[1], str(rng.choice([F(0), F(1, 100), F(1, 2), F(99, 100)])), str(rng.choice([F(1), F(2), F(5, 2), F(1, 2)]))])
+        cases.append({"kind": "ictnet", "n": nl, "rate": str(rate), "steps": steps})
     return cases
 
 
@@ -579,7 +623,7 @@ def run(res):
     n = 80 if res.tier == "quick" else 1200
     res.rule = ("histories of update/query calls on real Bus(trafo)/Line/ICTLine/ICTNode/Sensor(1-3, some sharing the default manual repair time)/"
                 "IntelligentSwitch/MainController objects with replayed draws, steps in s/min/h/day, rates 0..1e6; "
-                "section-pair: two lines of one switch-less section fail one after the other under manual control (full-state comparison with the switching model; the remaining outage time right after a failure is the drawn repair time); system: 60-increment sequential runs of built ICT-controlled systems (microgrid, its connecting line listed with both networks in every other case) whose lines, sensors and intelligent switches fail by themselves: whatever stays under repair loses exactly one step of remaining time per increment; "
+                "ictnet: 2-4 communication lines of one real ICTNetwork updated one at a time with replayed draws (overlapping outages), lines and the network's failed-line flag compared with the model; section-pair: two lines of one switch-less section fail one after the other under manual control (full-state comparison with the switching model; the remaining outage time right after a failure is the drawn repair time); system: 60-increment sequential runs of built ICT-controlled systems (microgrid, its connecting line listed with both networks in every other case) whose lines, sensors and intelligent switches fail by themselves: whatever stays under repair loses exactly one step of remaining time per increment; "
                 "non-trivial/distinct = distinct set of (pre-state, post-state, draws) transitions per history")
     from . import ctl
     run_cases(res, gen(rng, n), handler, lambda case, m, i: ([ctl.strip_ok(x) for x in m] == i) if case["kind"] == "section-pair" else m == i)
